@@ -489,7 +489,14 @@ RenderBad(s, ns, op, res) ==
 AllBad(res) == {res.all[i] : i \in {k \in DOMAIN res.all : res.all[k][4] = "panic" \/ (res.all[k][4] = "error" /\ res.all[k][5] # 1)}}
 
 BadResMore(s, ns, op, res) ==
-  IF op.op = "render" THEN RenderBad(s, ns, op, res)
+  IF op.op = "render"
+  THEN RenderBad(s, ns, op, res)
+       \* C10: the same bytes as the same content on a core table through the format's own wrapper
+       \cup (IF "same" \in DOMAIN res /\ res.same.match # 1 THEN {"res.same"} ELSE {})
+       \* C14: the same bytes as the first render of this content, format and decoration
+       \cup (IF "rep" \in DOMAIN res /\ res.rep.equal # 1 THEN {"res.rep"} ELSE {})
+       \* the wrapper renders with the decoration that was last set on it
+       \cup (IF "dec" \in DOMAIN res /\ "w" \in DOMAIN op /\ res.dec # s.wr[op.w].dec THEN {"res.dec"} ELSE {})
   ELSE IF op.op = "renderall" THEN (IF AllBad(res) # {} THEN {"out.all"} ELSE {})
   ELSE {}
 
@@ -504,11 +511,12 @@ BadRes(s, ns, op, res) ==
   \cup BadResMore(s, ns, op, res)
 
 \* re-setting keys must not grow an owner's stored state: the chain of a cell is
-\* never longer than its keys (plus the renderers' private measuring keys)
+\* never longer than its keys plus the renderers' three private measuring keys
+\* (text: dimensions, lines; markdown: width), which any render may have set
 AgreeChain(ns, chain) ==
   \A i \in DOMAIN chain :
     LET e == chain[i] IN
-      e[4] <= Cardinality(DOMAIN PropsOf(ns, e[1], e[2], e[3])) + (IF Len(ns.wr) > 0 THEN 3 ELSE 0)
+      e[4] <= Cardinality(DOMAIN PropsOf(ns, e[1], e[2], e[3])) + 3
 
 AgreeMore(s, ns, op, f, v) == TRUE
 
